@@ -190,6 +190,20 @@ def check(run):
                 takes = [n for n in ast.walk(cm.node) if isinstance(n, ast.Call) and isinstance(n.func, ast.Attribute)
                          and n.func.attr == 'take' and norm(n.func.value) == 'self']
                 run.check(len(takes) == 1, 'R10.order', cm, 'self.take(gate)', 'every gate of the other circuit is taken exactly once')
+                # a gate handed to a layer directly (x.take(gate), x a layer) bypasses the scheduling of self.take: with x read from
+                # self.last_layer before the loop and never refreshed, it is a stale layer as soon as self.take has opened a new one
+                for lt in [n for n in ast.walk(cm.node) if isinstance(n, ast.Call) and isinstance(n.func, ast.Attribute) and n.func.attr == 'take'
+                           and isinstance(n.func.value, ast.Name) and n.func.value.id != 'self']:
+                    x = lt.func.value.id
+                    inloop = any(isinstance(a, ast.Assign) and any(isinstance(t, ast.Name) and t.id == x for t in ast.walk(a))
+                                 for l in loops for b in l.body for a in ast.walk(b))
+                    before = [a for a in ast.walk(cm.node) if isinstance(a, ast.Assign) and any(isinstance(t, ast.Name) and t.id == x for t in a.targets)
+                              and 'last_layer' in norm(a.value)]
+                    if before and not inloop and takes:
+                        run.violation('R10.order', cm, lt, 'compose places gates into `%s`, read from %s before the loop and never refreshed, while self.take in '
+                                      'the same loop can open a new last layer: later gates sink below gates they overlap' % (x, norm(before[0].value)))
+                    else:
+                        run.undecided('R10.order', cm, lt, 'compose hands gates to a layer directly (%s.take): the scheduling is not read by this rule' % x)
                 # every way through compose that does not raise re-takes the gates: a path around the loop either drops the other
                 # circuit or adopts its layers
                 from ..rules import guards as G_, effect as E_
